@@ -46,17 +46,23 @@ static long nextv(std::map<int, std::vector<long>> &m, std::map<int, size_t> &c,
 
 // ---- heap interposition (array forms only: that is all the emitted helpers use) ----
 struct HeapHdr { long id; size_t sz; };
+// blocks allocated by global initialisers, before main() has read the inputs: reported once tracing starts
+static HeapHdr *heap_early[4096];
+static int heap_nearly = 0;
+static bool heap_started = false;
 void *operator new[](size_t sz) {
   HeapHdr *h = (HeapHdr *)malloc(sizeof(HeapHdr) + sz);
   if (!h) abort();
   h->id = ++heap_next_id; h->sz = sz;
   ++heap_live; heap_bytes += (long)sz;
+  if (!heap_started && heap_nearly < 4096) heap_early[heap_nearly++] = h;
   if (heap_trace) __ev("{\"e\":\"alloc\",\"id\":%ld,\"sz\":%zu}", h->id, sz);
   return (void *)(h + 1);
 }
 void operator delete[](void *p) noexcept {
   if (!p) return;
   HeapHdr *h = ((HeapHdr *)p) - 1;
+  if (!heap_started) for (int i = 0; i < heap_nearly; ++i) if (heap_early[i] == h) heap_early[i] = nullptr;
   --heap_live; heap_bytes -= (long)h->sz;
   if (heap_trace) __ev("{\"e\":\"free\",\"id\":%ld}", h->id);
   free(h);
@@ -191,6 +197,8 @@ static void load_inputs(const char *path) {
 int main(int argc, char **argv) {
   int n = argc > 1 ? atoi(argv[1]) : 3;
   if (argc > 2) load_inputs(argv[2]);
+  heap_started = true;
+  if (heap_trace) for (int i = 0; i < heap_nearly; ++i) if (heap_early[i]) __ev("{\"e\":\"alloc\",\"id\":%ld,\"sz\":%zu}", heap_early[i]->id, heap_early[i]->sz);
   if (getenv("RT_FLUSH")) setvbuf(stdout, nullptr, _IOLBF, 1 << 12); else setvbuf(stdout, nullptr, _IOFBF, 1 << 16);
   __ev("{\"e\":\"phase\",\"v\":\"setup\",\"k\":0,\"live\":%ld,\"bytes\":%ld}", heap_live, heap_bytes);
   setup();
